@@ -1,6 +1,7 @@
 (* C01 property theorems. *)
 From Coq Require Import NArith ZArith List Bool Arith.
-From OG Require Import C01.Model C01.Proofs.
+From Coq Require Import Permutation Sorted.
+From OG Require Import C01.Model C01.Proofs C01.Proofs2.
 Import ListNotations.
 
 (* records appended to partition (counter mod n) starting from counter 0, replayed one record per unfinished
@@ -28,6 +29,41 @@ Theorem replay_idempotent : forall (a b c : list batch) (k : key),
   over (lww (a ++ b)) (lww (b ++ c)) k = lww (a ++ b ++ c) k.
 Proof. intros a b c k. exact (over_overlap a b c k). Qed.
 Print Assumptions replay_idempotent.
+
+(* order of a partition's log files at restart: files created with increasing sequence numbers come back in creation
+   order - hence their records in append order - from ANY directory listing, when the comparator is the numeric order *)
+Theorem wal_file_order_numeric : forall (B : Type) (created listing : list (@wfile B)),
+  StronglySorted klt created -> Permutation listing created -> sort_files Nat.ltb listing = created.
+Proof. intros B created listing Hs Hp. exact (restore_numeric created listing Hs Hp). Qed.
+Print Assumptions wal_file_order_numeric.
+
+(* restoreLog's comparator on the decimal file names (shorter name first, then string order) is that numeric order
+   (finite table: all sequence numbers below name_table_bound = 260, which covers 9/10 and 99/100), so replay reads the
+   records of a partition in write order *)
+Theorem wal_file_restore_order : forall (B : Type) (created listing : list (@wfile B)),
+  StronglySorted klt created -> Permutation listing created ->
+  (forall f, In f created -> fst f < name_table_bound) ->
+  restore_records name_ltb listing = concat (map snd created).
+Proof. intros B created listing Hs Hp Hb. exact (restore_code_order created listing Hs Hp Hb). Qed.
+Print Assumptions wal_file_restore_order.
+
+(* sensitivity (documented mutant, not a finding): a plain string comparison of the names replays 10.wal before 9.wal *)
+Theorem wal_file_order_lexicographic_refuted :
+  restore_records name_ltb_lex [(9, [1%Z]); (10, [2%Z])] = [2%Z; 1%Z] /\ restore_records name_ltb [(10, [2%Z]); (9, [1%Z])] = [1%Z; 2%Z].
+Proof. exact lex_order_refuted. Qed.
+Print Assumptions wal_file_order_lexicographic_refuted.
+
+(* series index: with the flush order log switch -> index flush -> data-file commit -> log removal, for EVERY interleaving
+   of writes (also of brand-new series), flush steps and background index flushes - i.e. at every crash prefix - every
+   series that has rows in data files is in the durable index or in a live log record (replay re-creates it) *)
+Theorem index_durable_every_crash_prefix : forall ops : list iop, recoverable (irun good_order ops) = true.
+Proof. exact index_durable_good_order. Qed.
+Print Assumptions index_durable_every_crash_prefix.
+
+(* sensitivity (documented mutant): flushing the index only after the log removal loses a new series at a crash *)
+Theorem index_flush_last_refuted : recoverable (irun index_last_order [IWrite 7%N; IStep; IStep; IStep]) = false.
+Proof. exact index_last_refuted. Qed.
+Print Assumptions index_flush_last_refuted.
 
 (* a concrete framed record: every strict prefix is classified incomplete, the whole record is read back *)
 Example torn_record_rejected_example :
